@@ -188,7 +188,7 @@ PROPS = {
         ],
     },
     "C13": {
-        "units": ["swgaq", "swgar", "swmcq", "swmcr", "swgi", "swhs"], "kani_complete": ["status"], "kani_bounded_quick": [], "kani_bounded_thorough": [],
+        "units": ["swgaq", "swgar", "swmcq", "swmcr", "swgi", "swhs", "serdecap"], "kani_complete": ["status"], "kani_bounded_quick": [], "kani_bounded_thorough": [],
         "enumerations": [{"name": "ctap-map-%s" % a, "entry": "ctap-map", "arg": a,
                           "bound": b + "; BOUNDED: sample messages executed on the real crates through ciborium, not a proof",
                           "text": t} for (a, b, t) in [
@@ -205,7 +205,7 @@ PROPS = {
             "every run): Serialize side -- integer keys the CTAP specification assigns, ascending, absent optional members omitted, "
             "announced map length -- against a trusted model of serde's Serializer / SerializeMap (call order = entry order); "
             "Deserialize side -- see the unit reports for what is under contract",
-            "the encodings of the member values themselves (derived Serialize / Deserialize of the field types) and the CBOR byte level (ciborium) are ASSUMED by the Verus units; a BOUNDED stand-in runs with every check: the ctap-map sweeps execute sample messages of all six kinds, and authenticator data of 0 .. 65535-byte credential ids, through the real crates and ciborium (bounded_checks, not counted as proved); the extension input / output structs with text keys are serde derives and are not covered",
+            "the encodings of the member values themselves (derived Serialize / Deserialize of the field types) and the CBOR byte level (ciborium) are ASSUMED by the Verus units, except the hand-written list visitor of utils/serde.rs (unit serdecap, clause present-list-read-as-list: a list present on the wire is never read as an absent member); a BOUNDED stand-in runs with every check: the ctap-map sweeps execute sample messages of all six kinds, and authenticator data of 0 .. 65535-byte credential ids, through the real crates and ciborium (bounded_checks, not counted as proved); the extension input / output structs with text keys are serde derives and are not covered",
         ],
     },
     "C15": {
